@@ -93,6 +93,7 @@ func c16Unit(c *RunCtx, unit int) {
 		}
 	}
 	mailFault := ""
+	again := time.Duration(0)
 	pair := func(kind, what string, build func(variant int) (world.Req, string)) {
 		base := w.SaveState()
 		jar := world.NewBrowser(90)
@@ -107,6 +108,12 @@ func c16Unit(c *RunCtx, unit int) {
 			w.LoadState(base)
 			b := jar.Clone()
 			rq, pid := build(v)
+			if again > 0 {
+				// the same client asked the same thing a moment ago: the comparison is between the answers to
+				// the REPEATED request
+				w.Do(b, rq)
+				w.Advance(again)
+			}
 			if mailFault != "" {
 				w.FaultOps = map[string]error{mailFault: errGeneric}
 			}
@@ -226,6 +233,17 @@ func c16Unit(c *RunCtx, unit int) {
 			}
 			return world.Req{Method: "POST", Path: w.P("/recover"), Form: map[string]string{"email": pid}}, pid
 		})
+		// ... and asked twice in a row (the account then holds a pending recovery token; the unknown one cannot)
+		mailFault = ""
+		again = []time.Duration{time.Second, 5 * time.Second, 2 * time.Minute}[unit%3]
+		pair("recover-existing-vs-unknown", state+"/asked-again-after="+again.String(), func(v int) (world.Req, string) {
+			pid := ac.PID
+			if v == 1 {
+				pid = "x" + ac.PID
+			}
+			return world.Req{Method: "POST", Path: w.P("/recover"), Form: map[string]string{"email": pid}}, pid
+		})
+		again = 0
 	}
 	// (c') accounts whose stored password is not a usable hash — created through OAuth2 (no password at
 	// all; their identifiers are guessable), invited / imported with an empty or foreign-format value:
@@ -269,7 +287,7 @@ func c16Unit(c *RunCtx, unit int) {
 func init() {
 	register(&Check{
 		ID: "C16", Level: "exploration",
-		Rule:  "two-run monitor: from one snapshot of the whole world (storage, sessions, jar, outboxes, virtual clock) request A is run, the outcome recorded, the snapshot restored, request B run; status, every header, body, the browser's resulting session map and cookie jar are compared byte for byte (only the sid value and the submitted identifier canonicalised). Pairs: (a) correct vs incorrect password / OTP for a locked, confirmed account; (b) recovery start for an existing vs a similar non-existing identifier; (c) login / OTP login for an unknown identifier vs a known one with a wrong secret, restricted — decided from storage and the statement's lock automaton BEFORE running — to accounts that are not locked and that this attempt does not lock; the known side also includes accounts whose stored password is no usable hash (OAuth2-created, empty, foreign format, truncated). Account states come from a random prelude of failures, successes, manual lock/unlock and clock advances over random module subsets, load orders of lock/confirm, LockAfter 1-4, with rm/redir present or not, form and JSON. distinct_nontrivial = distinct (pair kind, account state, mode, load order, outcome) signatures.",
+		Rule:  "two-run monitor: from one snapshot of the whole world (storage, sessions, jar, outboxes, virtual clock) request A is run, the outcome recorded, the snapshot restored, request B run; status, every header, body, the browser's resulting session map and cookie jar are compared byte for byte (only the sid value and the submitted identifier canonicalised). Pairs: (a) correct vs incorrect password / OTP for a locked, confirmed account; (b) recovery start for an existing vs a similar non-existing identifier, asked once and asked twice in a row (1 s / 5 s / 2 min apart: the existing account then holds a pending token); (c) login / OTP login for an unknown identifier vs a known one with a wrong secret, restricted — decided from storage and the statement's lock automaton BEFORE running — to accounts that are not locked and that this attempt does not lock; the known side also includes accounts whose stored password is no usable hash (OAuth2-created, empty, foreign format, truncated). Account states come from a random prelude of failures, successes, manual lock/unlock and clock advances over random module subsets, load orders of lock/confirm, LockAfter 1-4, with rm/redir present or not, form and JSON. distinct_nontrivial = distinct (pair kind, account state, mode, load order, outcome) signatures.",
 		Units: func(t string) int { return tierN(t, 500, 40000) },
 		Run:   c16Unit,
 		Floors: func(t string) map[string]int {
